@@ -24,7 +24,7 @@ ASSUMPTIONS = [
     "the raw bytes of unopened blocks are taken from the written file by the independent header parser",
 ]
 REQUIRED_CLASSES = ["key.ends00", "upd.crc.lo=00", "upd.crc.hi=00", "upd.crc=0000", "cust.crc.lo=00", "cust.crc.hi=00", "blocks>=2", "strict-subset", "ecc",
-                    "enc-component", "route=path", "ecc.edge-scalar", "decoy-decryptors", "unknown-tag-block"]
+                    "enc-component", "route=path", "ecc.edge-scalar", "decoy-decryptors", "unknown-tag-block", "public-only-encryptor-in-reader-list"]
 
 KEY_CLASSES = ["random", "ends00", "upd.lo", "upd.hi", "upd.both", "cust.lo", "cust.hi", "cust.both"]
 
@@ -123,6 +123,16 @@ def check(case, rec):
         rec.cls("decoy-decryptors")
         ecc_sel = next((b["sel"] for b in blocks if b["kind"] == "ecc"), 0)
         decryptors = [sut.B2.EccDecryptor((ecc_sel + d) % 4, sut.private_key_from_int(1000 + d)) for d in case["decoys"]] + decryptors
+    if case.get("public_only"):
+        # the reader's list also holds PUBLIC-ONLY encryptors (no decrypt) for ECC blocks it cannot open - what one gets by re-using the writer's
+        # list for reading; such a block is simply not opened (pass-through), the file is read through the other blocks
+        extra = []
+        for i, b in enumerate(blocks):
+            if b["kind"] == "ecc" and i not in case["open"] and not any(blocks[j]["kind"] == "ecc" and blocks[j]["sel"] == b["sel"] for j in case["open"]):
+                extra.append(sut.B2.EccEncryptor(b["sel"]) if b.get("priv") is None else sut.mk_encryptor(b, public_only=True))
+        if extra:
+            rec.cls("public-only-encryptor-in-reader-list")
+            decryptors = extra + decryptors if case["public_only"] == 1 else decryptors + extra
     try:
         g = sut.Bec2File.read_file(src(), decryptors, check_cmac=case.get("check_cmac", True))
     except Exception as e:
@@ -183,7 +193,8 @@ def strat_case(draw, tier="quick"):
     comps = draw(st.lists(st.one_of(S.plain_component(mx), S.plain_component(mx), S.enc_component(200)), max_size=3))
     return dict(comments=draw(S.comment_list(3)), comps=comps, key=key, blocks=blocks, open=sub,
                 route=draw(st.sampled_from(["stream", "path"])), upd_writer_explicit=draw(st.booleans()), check_cmac=draw(st.sampled_from([True, True, False])),
-                decoys=draw(st.lists(st.integers(1, 3), max_size=2, unique=True)) if any(b["kind"] == "ecc" for b in blocks) else [])
+                decoys=draw(st.lists(st.integers(1, 3), max_size=2, unique=True)) if any(b["kind"] == "ecc" for b in blocks) else [],
+                public_only=draw(st.integers(0, 2)))
 
 
 def enum_keygrid(tier, shard, nshards, rng):
